@@ -3,6 +3,7 @@ package accumulation
 // P01L: the C01 grammar extended with loops, switches and pointer-receiver methods (same obligations as
 // Harness_P01, same pipeline). A program is one "structured" statement placed before or after one statement
 // of the base grammar:
+//   for k := 0; k < n; k++ { S0; S0 }      (two statements: three unrollings)
 //   for k := 0; k < n; k++ { S0 }          n opaque: the body runs 0, 1 or 2+ times (S0 is idempotent, so two
 //                                           unrollings are every behaviour)
 //   for x == nil { S0 }   for x != nil { S0 }   condition loops; a body that does not change the condition
@@ -60,7 +61,7 @@ func p01SimpleText(k int) string {
 }
 
 func (g *p01Gen) structured() {
-	kind := ndChoice("structured", 15)
+	kind := ndChoice("structured", ndParam("STRUCTURED", 16))
 	switch kind {
 	case 0: // counted loop
 		k := ndChoice("body", g.simple)
@@ -127,6 +128,21 @@ func (g *p01Gen) structured() {
 		g.emit("\t\t_ = *x")
 		g.emit("\t}")
 		g.applySimple(k1, l1, ndOr(g.x, fv))
+	case 15: // counted loop with a two-statement body: values travel one step per round; three unrollings are every behaviour
+		k1 := ndChoice("body1", g.simple)
+		k2 := ndChoice("body2", g.simple)
+		it1, it2, it3 := ndBool("iter1"), ndBool("iter2"), ndBool("iter3")
+		g.emit("\tfor k := 0; k < n; k++ {")
+		l1 := g.emit("\t\t" + p01SimpleText(k1))
+		l2 := g.emit("\t\t" + p01SimpleText(k2))
+		g.emit("\t}")
+		c1, c2, c3 := it1, ndAnd(it1, it2), ndAnd(ndAnd(it1, it2), it3)
+		g.applySimple(k1, l1, c1)
+		g.applySimple(k2, l2, c1)
+		g.applySimple(k1, l1, c2)
+		g.applySimple(k2, l2, c2)
+		g.applySimple(k1, l1, c3)
+		g.applySimple(k2, l2, c3)
 	case 11: // a nil check hoisted above a loop
 		g.emit("\tif x != nil {")
 		g.emit("\t\tfor k := 0; k < n; k++ {")
